@@ -72,7 +72,7 @@ def create_network_from_dictionary(params_input):
     """
     Creates a Network object from a parameters dictionary.
     """
-    params = fill_out_dictionary(params_input)
+    params = fill_out_dictionary(dict(params_input))
     validify_dictionary(params)
     # Then make the Network object
     number_of_classes = params["number_of_classes"]
